@@ -69,10 +69,14 @@ func ZZ_C09_Nav() {
 			}
 			rl.History.Add("zz", src)
 			// the in-progress text arrives as the user's typing does: one self-insert per
-			// character, each followed by the undo-history save the main loop performs
+			// character — which asks for the undo-history save to be skipped, as the real
+			// command does (emacs.go selfInsert: History.SkipSave) — followed by the save call
+			// of the main loop. Typed text is therefore NOT in the undo history until a
+			// command that saves runs: the history commands must cope with exactly that.
 			for _, r := range T {
 				rl.line.Insert(rl.cursor.Pos(), r)
 				rl.cursor.Inc()
+				rl.History.SkipSave()
 				rl.History.SaveWithCommand(inputrc.Bind{Action: "self-insert"})
 			}
 			for _, c := range alphabet {
